@@ -2120,6 +2120,12 @@ class Evaluator:
                 padn = max(0, pos[0] - n)
                 parts = [recv, fill * padn] if meth == "ljust" else [fill * padn, recv]
                 return tm.cat(parts) if ty == tm.BYTES else tm.scat(parts)
+        if meth == "translate" and ty in (tm.BYTES, tm.ANY) and 1 <= len(pos) <= 2 and not set(kw) - {"delete"}:
+            table = pos[0]
+            delete = pos[1] if len(pos) > 1 else kw.get("delete", b"")
+            if isinstance(recv, (bytes, bytearray)) and (table is None or isinstance(table, bytes)) and isinstance(delete, bytes):
+                return bytes(recv).translate(table, delete)
+            return T("m:translate", (tm._fz(recv), table, delete), tm.BYTES)
         if meth in ("lower", "upper", "strip", "isupper", "islower", "lstrip", "rstrip", "split", "splitlines", "zfill",
                     "index", "count", "find", "isdigit", "title", "replace", "partition", "rsplit", "rpartition", "ljust", "rjust",
                     "removeprefix", "removesuffix", "isalnum", "isalpha", "isascii", "rfind", "rindex", "casefold", "swapcase"):
@@ -2250,7 +2256,7 @@ class Evaluator:
         if n == "operator.attrgetter" and len(pos) == 1 and isinstance(a0, str) and not kw:
             return T("attrgetter", (a0,))
         if n == "functools.reduce" and 2 <= len(pos) <= 3 and not kw:
-            seq0 = _concrete_iter(pos[1]) if not isinstance(pos[1], (str, bytes, dict)) else None
+            seq0 = _concrete_iter(pos[1]) if not isinstance(pos[1], dict) else None
             if seq0 is not None and len(seq0) <= MAX_UNROLL:
                 items = list(seq0)
                 if len(pos) == 3:
@@ -2262,6 +2268,17 @@ class Evaluator:
                 for x in items:
                     acc = self.call_value(pos[0], [acc, x], {}, e, fr)
                 return acc
+            if seq0 is None and len(pos) == 3 and isinstance(pos[1], T):
+                # a fold over a sequence of unknown length: the same term a `for x in seq: acc = f(acc, x)` loop gives
+                d = fr.loopdepth
+                accv = T("acc", ("reduce", d), tm.tyof(pos[2]))
+                fr.loopdepth = d + 1
+                try:
+                    body = self.call_value(pos[0], [accv, tm.bv(d, tm.INT if tm.tyof(pos[1]) == tm.BYTES else tm.ANY)], {}, e, fr)
+                finally:
+                    fr.loopdepth = d
+                fr.iters[d] = pos[1]
+                return T("fold", ("reduce", tm._fz(body), tm._fz(pos[2]), tm._fz(pos[1]), d), tm.tyof(pos[2]))
         if n == "int.from_bytes":
             en = pos[1] if len(pos) > 1 else kw.get("byteorder", "big")
             if kw.get("signed", False) is not False:
